@@ -11,11 +11,7 @@ namespace C07Codec
 
 def optInt (j : J) : Option Int := match j with | .num n => some n | _ => none
 
-def clsOf (j : J) (k : String) : FCls :=
-  match j.strD k with
-  | "inf" => .inf
-  | "nan" => .nan
-  | _ => .finite
+
 
 partial def pvOfWire : J → PV
   | .null => .none
@@ -46,16 +42,12 @@ partial def jvOfWire : J → JV
   | .null => .null
   | .bool b => .bool b
   | .num n => .int n
-  | .str s => .str s none none
+  | .str s => .str s
   | .arr a => .list (a.map jvOfWire)
   | j@(.obj _) =>
     match j.get? "f", j.get? "s", j.get? "o" with
-    | some (.str t), _, _ => .float t (optInt (j.getD "int")) (clsOf j "cls")
-    | _, some (.str s), _ =>
-      let flt := match j.getD "flt" with
-        | f@(.obj _) => some (f.strD "r", optInt (f.getD "int"), clsOf f "cls")
-        | _ => none
-      .str s (optInt (j.getD "i10")) flt
+    | some (.str t), _, _ => .float t
+    | _, some (.str s), _ => .str s
     | _, _, some (.arr kvs) => .obj (kvs.map fun kv =>
         match kv with
         | .arr [.str k, v] => (k, jvOfWire v)
@@ -66,7 +58,7 @@ partial def litOfWire (j : J) : Lit :=
   match j.strD "k" with
   | "null" => .null
   | "int" => .int (j.intD "v")
-  | "float" => .float (j.strD "v") (clsOf j "cls")
+  | "float" => .float (j.strD "v")
   | "str" => .str (j.strD "v")
   | "bool" => .bool (j.boolD "v")
   | "enum" => .enum (j.strD "v")
@@ -115,7 +107,7 @@ def sampleParse (impl : String) (n : String) (v : JV) : ParseOut :=
   | "tagged" =>
     match v with
     | .obj _ => .raised
-    | .str s _ _ => .value (.dict [("v", .str s)])
+    | .str s => .value (.dict [("v", .str s)])
     | _ => .refused
   | _ => defaultScalarParse n v
 
